@@ -9,7 +9,7 @@ confirm = "--confirm" in sys.argv
 checks = [pid]
 tier = "quick"
 for i, a in enumerate(sys.argv):
-    if a == "--checks": checks = sys.argv[i + 1].split(",")
+    if a == "--checks": checks = [] if sys.argv[i + 1] == "none" else sys.argv[i + 1].split(",")
     if a == "--tier": tier = sys.argv[i + 1]
 base = f"/tmp/seed/{pid}"
 wt = f"{base}/repo"
